@@ -1593,6 +1593,27 @@ fn oracle(key: &str, attr: &str, opt: &str, path: Path, orig: &Orig, direct: &Op
     Ok(())
 }
 
+/// The map view of the properties (`Props::as_map`, what a consumer serialises to get all properties at once) shows, to
+/// a serde consumer and to an sval consumer alike, the property under its key with the value's own serialisation —
+/// a null value included. (Values whose own serialisation does not parse as JSON — known finding K1, integers beyond
+/// 64 bits — are not compared.)
+fn map_views_agree<P: Props>(props: &P, key: &str) -> Result<(), String> {
+    let Some(v) = props.get(key) else { return Ok(()) };
+    let parse = |s: Option<String>| s.and_then(|s| serde_json::from_str::<serde_json::Value>(&s).ok());
+    let views = [
+        ("serde", parse(serde_json::to_string(&v).ok()), parse(serde_json::to_string(props.as_map()).ok())),
+        ("sval", parse(sval_json::stream_to_string(&v).ok()), parse(sval_json::stream_to_string(props.as_map()).ok())),
+    ];
+    for (name, want, map) in views {
+        let Some(want) = want else { continue };
+        match map {
+            Some(serde_json::Value::Object(o)) if o.get(key) == Some(&want) => {}
+            _ => return Err(format!("as_map-{}-view-differs-from-the-value", name)),
+        }
+    }
+    Ok(())
+}
+
 fn finish<P: Props>(props: &P, key: &'static str, attr: &str, opt: &str, path: Path, orig: &Orig, emitted: Option<Option<Obs>>) -> String {
     let direct = observe(props, key);
     let got = match emitted {
@@ -1607,7 +1628,7 @@ fn finish<P: Props>(props: &P, key: &'static str, attr: &str, opt: &str, path: P
     let verdict = oracle(key, attr, opt, path, orig, &direct, &got).and_then(|()| match &got {
         Some(o) if !o.owned_disp_same => Err("owned-copy-displays-differently".to_string()),
         _ => Ok(()),
-    });
+    }).and_then(|()| map_views_agree(props, key));
     match verdict {
         Ok(()) => out,
         Err(why) => format!("{}\tFAIL:{}", out, why),
